@@ -32,6 +32,19 @@ CHECKS = {
         note="Trusted: Coq kernel + vm_compute; ref_instr.py as the definition of what each event means (59 events with an unambiguous source meaning); astexport; the laws of EraseSound.v "
              "(Section hypotheses). Choices: bare except = except BaseException with no source node; before_subscript_* fire after the subscript expression.",
         ref="DESIGN.md section 7 C02"),
+    "C03": dict(
+        technique="Coq-verified projection certificate (K-erasure of the two real rewriter outputs coincide; soundness theorem for every semantics satisfying explicit laws) + only-subscribed-sites certificate + stream projection oracle",
+        text="For a program and event sets E1 within E2 the REAL rewriter is run twice; check_proj (model/Prune.v) K-erases both outputs for K = E1 - every emit site "
+             "outside K, every guard conditional, NameError fallback, try/finally bracket, before_stmt expansion and saved-slice plumbing is removed bottom-up, kept "
+             "sites stay where they are, unrecognised shapes fail closed - and the two results must be the same tree. C03_proj_sound (Qed, closed): for every semantics "
+             "of Python ASTs and every equivalence 'same behaviour, same sub-stream of the K events' under which each root rewrite of the K-erasure is valid, a passed "
+             "check implies the two rewritten programs are equivalent, i.e. the stream under E1 is the stream under E2 filtered to E1. C03_only_subscribed: a passed "
+             "check_only_subscribed means every emission site is for a subscribed event or a helper serving one. The quick check obtains both certificates in coqc for "
+             "~70 programs x subset pairs (E2 = all AST events in half of them) and the oracle compares the two recorded streams occurrence by occurrence.",
+        note="The universal claim over programs is established pair by pair (translation validation with a verified checker). The laws are facts about CPython's "
+             "evaluation under observing handlers in an enabled context (guards never activated), validated by the stream oracle, not proved. Trusted: Coq kernel + "
+             "vm_compute; astexport (one interner for both rewrites); translators for node kinds, event names, reserved identifiers.",
+        ref="DESIGN.md section 7 C03"),
     "C04": dict(
         technique="Coq proof (refinement of the runtime fold to the stated rule, induction over handler and tracer lists) with decision tables regenerated from source + in-coqc correspondence",
         text="C04_fold and C04_before_stmt are Qed-closed for every stack of tracers, handler list, outcome function and initial value. "
@@ -71,7 +84,7 @@ CHECKS = {
              "C08_make_ret is proved about _make_ret as REGENERATED from emit_event.py on every run: a callable handler result is used as the computation, any "
              "other value is wrapped into a constant computation, non-deferred events are unchanged. The oracle runs plain vs instrumented (the recorder calls "
              "in generated expressions make evaluation count and order observable) and 72 override templates (15 events x thunk / functools.partial / value / Null / nothing).",
-        note="As C01. Comparison chains under before_compare are the recorded finding: the erasure refuses that shape.",
+        note="As C01. Comparison chains under before_compare were a finding (every comparator evaluated up front); fixed, the erasure now certifies the repaired shape.",
         ref="DESIGN.md section 7 C08"),
     "C09": dict(
         technique="Coq proof (induction over frame trees with a relation between a frame's local trace function with and without pyccolo) on a model of CPython's trace protocol + composed tracers; correspondence against real sys.settrace runs",
